@@ -59,7 +59,7 @@ Section Kernels.
   Lemma K_lbfgs_converged w : lbfgs_converged w = true <-> w = 0%Z.
   Proof. unfold lbfgs_converged. apply Z.eqb_eq. Qed.
   Lemma K_mx_neg f g g2 m :
-    mx_neg_f N f = - f /\ mx_neg_grad N g = - g /\ mx_neg_grad2 N g2 = - g2 /\
+    mx_neg_f N f = - f /\ (forall i, mx_neg_grad N i g = - g) /\ (forall i, mx_neg_grad_idx0 N i = i) /\ mx_neg_grad2 N g2 = - g2 /\
     mx_llmax_nr N m = - m /\ mx_neg_f_gen N f = - f /\ mx_neg_grads_gen N g = - g /\ mx_llmax_gen N m = - m.
   Proof. repeat split. Qed.
 End Kernels.
